@@ -1,7 +1,7 @@
 (* Model of configuration/componentcfg/query.go (NewQuery, Raw, NewQueryParameters),
    apricot/local/serviceutil.go (resolveComponentQuery) and the binding construction of
    apricot/local/service.go:GetAndProcessComponentConfiguration.   Definitions only. *)
-From Verif Require Export Common Gen_RunTypes Gen_TplCache.
+From Verif Require Export Common Gen_RunTypes Gen_TplCache Gen_CfgBackends.
 Open Scope N_scope.
 
 (* ---------- character classes (ASCII codes) ---------- *)
@@ -117,6 +117,23 @@ Definition resolve (ex : str -> bool) (q : query) : option query :=
 
 Definition candidates (q : query) : list query :=
   [q; with_any_rt q; with_any_role q; with_any_rt (with_any_role q)].
+
+(* ---------- the backends' Exists over a store that holds exactly the entries [existing] ----------
+   (paths component/RUNTYPE/role/entry; Gen_CfgBackends says how ConsulSource.Exists asks Consul) *)
+Fixpoint is_prefix (a b : str) : bool :=
+  match a, b with
+  | [], _ => true
+  | x :: a', y :: b' => (x =? y) && is_prefix a' b'
+  | _ :: _, [] => false
+  end.
+Definition is_entry (existing : list str) (p : str) : bool := mem_str p existing.
+Definition is_folder (existing : list str) (p : str) : bool := existsb (is_prefix (p ++ [slash])) existing.
+(* ConsulSource.Exists: a GET of the key (the key is stored), or - the other way of asking Consul -
+   a key LISTING, which Consul answers by string prefix *)
+Definition consul_exists (by_get : bool) (existing : list str) (p : str) : bool :=
+  if by_get then is_entry existing p else existsb (is_prefix p) existing.
+(* YamlSource.Exists walks the tree: any node, entry or folder *)
+Definition file_exists (existing : list str) (p : str) : bool := is_entry existing p || is_folder existing p.
 
 (* ---------- query parameters ---------- *)
 Definition amp : N := 38.
@@ -422,6 +439,12 @@ Inductive c20_case :=
 | CResolve (q : query) (existing : list str) (observed : option query)
            (get_ok : bool)                                   (* ResolveComponentQuery + Get on result *)
 | CRender (vars : list (str * str)) (t : list tpiece) (observed : option str)
+(* the same entries in the file backend and in Consul (real ConsulSource over a stand-in for the KV
+   HTTP API): resolution of [q] on both, whether the resolved entry could be fetched (unprocessed and
+   processed) with its content, and what Source.Exists of both says about probe paths
+   (1 yes / 0 no / 2 error; file first) *)
+| CBackends (q : query) (existing : list str) (file consul : option query) (get_file get_consul : bool)
+            (probes : list (str * (N * N)))
 (* a sequence of operations on ONE Service over a backend that starts as [backend]:
    [observed] = what each operation returned (None: failed / not a request),
    [cold] = what the same request returned alone on a fresh Service over the backend as it
@@ -477,6 +500,15 @@ Definition corr20 (c : c20_case) : bool :=
                 | None => None end) o
   | CResolve q ex o _ => option_eqb query_eqb (resolve (fun p => mem_str p ex) q) o
   | CRender vars t o => option_eqb str_eqb (render vars t) o
+  | CBackends q exl f c gf gc probes =>
+    let fr := resolve (fun p => file_exists exl p) q in
+    let cr := resolve (fun p => consul_exists consul_exists_by_get exl p) q in
+    let fetched o := match o with Some r => is_entry exl (print_query r) | None => true end in
+    option_eqb query_eqb fr f && option_eqb query_eqb cr c &&
+    Bool.eqb (fetched fr) gf && Bool.eqb (fetched cr) gc &&
+    forallb (fun pr => let '(p, (a, b)) := pr in
+                       (a =? (if file_exists exl p then 1 else 0)) &&
+                       (b =? (if consul_exists consul_exists_by_get exl p then 1 else 0))) probes
   | CSeq be ops o cold raw =>
     list_eqb (option_eqb str_eqb) (snd (run (fresh be) ops)) o &&
     list_eqb (option_eqb str_eqb) (pure_outs be ops) cold &&
@@ -494,7 +526,11 @@ Definition corr20 (c : c20_case) : bool :=
    8 a processed lookup succeeded although the unprocessed lookup of the same path fails (there
    is no entry: nothing to template);
    9 as 7, for an entry that was created after a processed lookup of its path had been made
-   while it was missing (the outcome of the earlier lookup was remembered). *)
+   while it was missing (the outcome of the earlier lookup was remembered);
+   3/4/5 also for the resolution over the Consul backend and over the file backend of a CBackends
+   case, judged against the SET OF ENTRIES; 12 the file backend resolved to a folder (a path with
+   entries below it and no content); 10 a backend's Exists says yes for a path that is no entry
+   (folders of the file backend aside) or no for one that is. *)
 Fixpoint first_existing (ex : str -> bool) (l : list query) : option query :=
   match l with
   | [] => None
@@ -552,6 +588,25 @@ Definition mon20 (c : c20_case) : N :=
     else if negb (forallb (fun it => is_process it || mem_str it printed) items) then 6
     else 0
   | CSeq _ ops o cold raw => seq_mon [] [] [] ops o cold raw
+  | CBackends q exl f c gf gc probes =>
+    let ex := is_entry exl in
+    let judge (o : option query) (get_ok folder_code : bool) : N :=
+      match o, first_existing ex (candidates q) with
+      | Some r, Some fe =>
+        if query_eqb r fe then (if get_ok then 0 else 5)
+        else if folder_code && is_folder exl (print_query r) then 12 else 3
+      | Some r, None => if folder_code && is_folder exl (print_query r) then 12 else 3
+      | None, Some _ => 4
+      | None, None => 0
+      end in
+    let cc := judge c gc false in
+    if negb (cc =? 0) then cc else
+    let fc := judge f gf true in
+    if negb (fc =? 0) then fc else
+    if forallb (fun pr => let '(p, (a, b)) := pr in
+                          (b =? (if ex p then 1 else 0)) &&
+                          (is_folder exl p || (a =? (if ex p then 1 else 0)))) probes
+    then 0 else 10
   | _ => 0
   end.
 
@@ -568,6 +623,16 @@ Definition tag20 (c : c20_case) : N :=
        + (if ex (print_query (with_any_rt q)) then 2 else 0)
        + (if ex (print_query (with_any_role q)) then 4 else 0)
        + (if ex (print_query (with_any_rt (with_any_role q))) then 8 else 0)
+  | CBackends q exl _ _ _ _ _ =>
+    (* 40 + which candidates are entries; +16 if a candidate that is no entry is a string prefix
+       of some entry (sibling or folder) *)
+    let ex := is_entry exl in
+    40 + (if ex (print_query q) then 1 else 0)
+       + (if ex (print_query (with_any_rt q)) then 2 else 0)
+       + (if ex (print_query (with_any_role q)) then 4 else 0)
+       + (if ex (print_query (with_any_rt (with_any_role q))) then 8 else 0)
+       + (if existsb (fun c => negb (ex (print_query c)) && existsb (is_prefix (print_query c)) exl) (candidates q)
+          then 16 else 0)
   | CRender _ t _ => if existsb (fun p => match p with TExp _ => true | _ => false end) t then 35 else 30
   | CSeq _ ops _ _ raw =>
     if late_pattern [] [] ops raw then 36 else
